@@ -42,10 +42,10 @@ def classify(msg, op):
     return "unknown"
 
 
-def decode_streams(td, nthreads):
+def decode_streams(td, nthreads, base=100):
     out = []
     for t in range(1, nthreads + 1):
-        p = os.path.join(td, "loom.node0", "proc.1000", "thread.%d" % (100 + t), "stream.obs")
+        p = os.path.join(td, "loom.node0", "proc.1000", "thread.%d" % (base + t), "stream.obs")
         evs = []
         if os.path.exists(p):
             try:
@@ -121,7 +121,7 @@ def free_run(drv, plan, env_extra=None, want_outs=False):
                 except ValueError:
                     outs.append([])
         return {"rc": rc, "stderr": err.decode("latin1", "replace") + errtxt,
-                "disk": decode_streams(td, len(progs)), "progs": progs, "outs": outs}
+                "disk": decode_streams(td, len(progs), int(env.get("VERIF_TID_BASE", 100))), "progs": progs, "outs": outs}
     finally:
         shutil.rmtree(d, ignore_errors=True)
 
@@ -196,8 +196,13 @@ def init_race_runs(ck, drv, tier):
     racer = ["await", "sync", "thread_init"] + ["emit"] * 20 + ["flush", "free"]
     plan = {"progs": [first] + [racer] * 7}
     reps = 150 if tier == "quick" else 2500
-    res = core.pmap(lambda k: free_run(drv, plan, {"OVNI_TMPDIR": "1"} if k % 2 else None, want_outs=True),
-                    list(range(reps)), workers=2)
+    # (every third run with ten-digit thread ids that differ in the last digit only)
+    def envof(k):
+        e = {"OVNI_TMPDIR": "1"} if k % 2 else {}
+        if k % 3 == 2:
+            e["VERIF_TID_BASE"] = "2147483630"
+        return e or None
+    res = core.pmap(lambda k: free_run(drv, plan, envof(k), want_outs=True), list(range(reps)), workers=2)
     bad = 0
     for k, x in enumerate(res):
         ck.case("init-race:%d" % k, nontrivial=True)
